@@ -72,10 +72,12 @@ add(Contract(
 
 add(Contract(
     PI + "skipToken", params={"self": "obj:ParserInline", "state": "obj:StateInline"}, props=["C01", "C20"],
+    modifies=["state.pos", "state.cache", "state.backticks", "state.backticksScanned", "state.delimiters", "state.linkLevel", "state.pendingLevel"],
     requires=POSR + [("nest", "state.md.options.maxNesting >= 1"),
                      ("cache-inv", "forall(p, 0, len(state.src) + 1, implies(p in state.cache, state.cache[p] > p))")],
     at=[("call:rule", "rule-under-nesting-cap", "state.level - 1 < state.md.options.maxNesting")],
     ensures=[("advance", "state.pos > old(state.pos)"),
+             ("level-restored", "state.level == old(state.level) and state.posMax == old(state.posMax) and state.pending == old(state.pending)"),
              ("cache-inv", "forall(p, 0, len(state.src) + 1, implies(p in state.cache, state.cache[p] > p))"), ("memo", "old(state.pos) in state.cache and state.cache[old(state.pos)] == state.pos"),
              ("hit-no-work", "implies(old(old(state.pos) in state.cache), state.pos == old(state.cache[state.pos]))")],
     loops={0: {"types": {"rule": "none", "ok": "bool"},
